@@ -125,3 +125,20 @@ package api
 //@   vars sin int, sout int, bal real, B real
 //@   hyp bal == real(sin - sout) && abs(bal) <= B
 //@   goal abs(real(sout - sin)) <= B
+//@
+//@ // ---- C14 / C12: distribution selection
+//@ func withRegularDistribution
+//@   props C12 C14
+//@   requires rateFn != nil
+//@   ensures [passthrough] iterationDuration <= 100000000 ==> result.0 == iterationDuration && result.1 == rateFn
+//@   ensures [subtick] iterationDuration > 100000000 ==> result.0 == 100000000 && result.1 != nil
+//@
+//@ func NewDistribution
+//@   props C12 C14
+//@   requires rateFn != nil
+//@   ensures [positive] result.2 == nil ==> result.0 > 0 && result.1 != nil
+//@   ensures [nonpositive] iterationDuration <= 0 ==> result.2 != nil
+//@   ensures [none] iterationDuration > 0 && distributionTypeArg == "none" ==> result.2 == nil && result.0 == iterationDuration && result.1 == rateFn
+//@   ensures [known] iterationDuration > 0 && (distributionTypeArg == "regular" || distributionTypeArg == "random") ==> result.2 == nil && result.1 != nil &&
+//@           result.0 == (iterationDuration <= 100000000 ? iterationDuration : 100000000)
+//@   ensures [unknown] (distributionTypeArg != "none" && distributionTypeArg != "regular" && distributionTypeArg != "random") ==> result.2 != nil
